@@ -690,7 +690,12 @@ func (in *Interp) assign1(s, l, r *gen.Node) error {
 			if in.opt(RowVoidValue) == 1 {
 				return in.errf(r, "right side yields no value")
 			}
-			return ErrUnsupported // a variable holding "no value" is outside the modelled language
+			if l.Kind == gen.Ident {
+				// an assignment is an assignment: the name becomes (or stays) a variable; reading it yields what the
+				// right side yielded - no value, which the language treats like nil wherever a value is needed
+				return in.store(l, Void)
+			}
+			return ErrUnsupported // "no value" stored into a collection is outside the modelled language
 		}
 		return in.store(l, rv)
 	}
